@@ -106,7 +106,7 @@ func (ev *Evidence) write(start time.Time) {
 			"transitions":                   trans,
 			"traces_validated_against_impl": ev.ReplaysConfirmed,
 			"samples":                       ev.Samples,
-			"explanation":                   "bounded symbolic execution of the real code from go/ssa; states = feasible symbolic paths explored to the end, transitions = SSA instructions executed symbolically; every obligation (harness assertion, Go run-time check, vacuity witness) is a z3 query over the path condition",
+			"explanation":                   "bounded symbolic execution of the real code from go/ssa; states = feasible symbolic paths explored to the end, transitions = SSA instructions executed symbolically; every obligation (harness assertion, Go run-time check, vacuity witness) is decided by constant folding or by a z3 query over the path condition",
 			"obligations":                   ev.Obligations,
 			"discharged":                    ev.Discharged,
 			"queries":                       map[string]int{"sat": ev.Sat, "unsat": ev.Unsat, "unknown": ev.Unk},
@@ -115,19 +115,20 @@ func (ev *Evidence) write(start time.Time) {
 			"functions_encoded_count":       len(fns),
 			"harnesses":                     ev.Harnesses,
 			"translator_selftest_records_agreeing_with_native": ev.SelftestRecords,
-			"input_domains_declared_in_harnesses": ev.Bounds,
-			"engine_bounds":                 "per path: interpreter steps 4M (thorough 20M), decision depth 1500; per harness 60k (thorough 1.5M) paths; per query 20s (thorough 120s); exceeding any is reported as inconclusive",
-			"replays_attempted":             ev.Replays,
-			"replays_confirmed":             ev.ReplaysConfirmed,
-			"known_findings_reported":       ev.Known,
-			"inconclusive":                  ev.Inconclusive,
-			"reach_witnesses":               ev.Reached,
-			"exhaustive":                    false,
+			"input_domains_declared_in_harnesses":              ev.Bounds,
+			"engine_bounds":                                    "per path: interpreter steps 4M (thorough 20M), decision depth 1500; per harness 60k (thorough 1.5M) paths; per query 20s (thorough 120s); exceeding any is reported as inconclusive",
+			"replays_attempted":                                ev.Replays,
+			"replays_confirmed":                                ev.ReplaysConfirmed,
+			"known_findings_reported":                          ev.Known,
+			"inconclusive":                                     ev.Inconclusive,
+			"reach_witnesses":                                  ev.Reached,
+			"exhaustive":                                       false,
 		},
 		"assumptions": []string{
-			"Go 1.23 type checker and go/ssa builder (x/tools v0.29.0); gosmt interpreter; z3 4.8.12",
+			"Go 1.23 type checker and go/ssa builder (x/tools v0.29.0); gosmt interpreter; z3 5.1.0 (z3-new) as primary solver, every unknown re-decided on z3 4.8.12",
 			"ideal AEAD (no forgery, ciphertexts fresh); HMAC-SHA1 uninterpreted; crypto/rand returns arbitrary bytes",
-			"time.Now monotone; stdlib text formatting/parsing of addresses are mutual inverses (structured strings)",
+			"time.Now monotone; timers (context.WithTimeout, time.AfterFunc) do not fire within an explored run; stdlib text formatting/parsing of addresses are mutual inverses (structured strings)",
+			"goroutine schedules: cooperative, plus the preemption bound stated in each harness (verifSched); races by vector clocks over the explored schedules",
 			"sockets are harness fakes scripted by symbolic values; resolver adversarial",
 			"bounds are those stated in the harness sources (verifInt ranges, loop/step/path caps); inputs outside are not covered",
 		},
